@@ -929,10 +929,11 @@ result_t ValueListDataField::writeSymbols(size_t offset, istringstream* input,
   const char* str = inputStr.c_str();
   char* strEnd = nullptr;  // fall back to raw value in input
   unsigned int value;
-  value = (unsigned int)strtoul(str, &strEnd, 10);
-  if (strEnd == nullptr || strEnd == str || (*strEnd != 0 && *strEnd != '.')) {
-    return RESULT_ERR_INVALID_NUM;  // invalid value
+  unsigned long long parsed = strtoull(str, &strEnd, 10);
+  if (strEnd == nullptr || strEnd == str || (*strEnd != 0 && *strEnd != '.') || parsed > 0xffffffffULL) {
+    return RESULT_ERR_INVALID_NUM;  // invalid value (or too big resp. negative)
   }
+  value = (unsigned int)parsed;
   if (m_values.find(value) != m_values.end()) {
     return numType->writeRawValue(value, offset, m_length, output, usedLength);
   }
